@@ -1,4 +1,5 @@
 mod c02;
+mod c03;
 mod c04;
 mod c05;
 mod c07;
@@ -24,15 +25,16 @@ mod reflex;
 mod common;
 mod prim;
 mod subject;
+mod tyck;
 
 use common::*;
 
 /// All sub-checks of a property for a tier.
 fn checks_for(property: &str, tier: Tier) -> Vec<Box<dyn Check>> {
     match property {
-        | "C01" => vec![Box::new(c02::Universe::new(c02::Mode::Safety, tier))],
+        | "C01" => vec![Box::new(c02::Universe::new(c02::Mode::Safety, tier)), Box::new(c03::Mutants::new(true, tier))],
         | "C02" => vec![Box::new(c02::Universe::new(c02::Mode::Agreement, tier))],
-        | "C03" => vec![Box::new(c02::Universe::new(c02::Mode::Acceptance, tier))],
+        | "C03" => vec![Box::new(c02::Universe::new(c02::Mode::Acceptance, tier)), Box::new(c03::Mutants::new(false, tier))],
         | "C04" => c04::checks(tier),
         | "C05" => c05::checks(),
         | "C12" => vec![Box::new(c12::Fmt::new(c12::Mode::Meaning, tier))],
